@@ -67,6 +67,13 @@ var c12Allow = []allowEntry{
 }
 
 func runC12(p *Prog, r *Report) {
+	{
+		q := NewQ(p, r)
+		R := "C12.6/in-progress-flag-cleared"
+		r.Describe(R, "the 'a receive is in progress' flag of REP and REQ contexts is cleared on every return of RecvMsg, including the timeout and closed returns: otherwise one expired deadline makes every later Recv fail at once")
+		q.TokenReleased(R, "protocol/rep.(*context).RecvMsg/recvWait", q.Fn(R, "protocol/rep", "context", "RecvMsg"), "recv.recvWait")
+		q.TokenReleased(R, "protocol/req.(*context).RecvMsg/receiveWait", q.Fn(R, "protocol/req", "context", "RecvMsg"), "recv.receiveWait")
+	}
 	r.Describe("C12.5/ErrClosed-means-closed", "transports produce ErrClosed only under a test of the object's own closed state: core stops accepting / redialling for good when it sees ErrClosed")
 	errClosedMeansClosed(p, r, "C12.5/ErrClosed-means-closed")
 	r.Floor("C12.5/ErrClosed-means-closed", "c12.errclosed_sites_in_transports", 10)
